@@ -160,7 +160,10 @@ def judge_wire(pid, V, sc, lines, stats, rpc_faults_as_c13=False):
     crash = [l for l in lines if l["a"] == "ProcessCrash"]
     if crash:
         if not crash[0]["in_database_code"]:
-            raise InfraError("zvwire crashed in %s: %s\n%s" % (sc["scn"], crash[0]["panic"], crash[0]["stderr_tail"]))
+            # the driver itself went down in this scenario: no verdict for it
+            stats["harness_errors"] += 1
+            V.notes.append("%s: the driver crashed (%s at %s): not judged" % (sc["scn"], crash[0]["panic"][:120], crash[0]["top_frame"]))
+            return
         rp = common.save_replay(pid, sc["scn"], {"wire": sc, "kind": "process-crash", "panic": crash[0]})
         V.violation(rp, "%s: the process crashed: panic: %s" % (sc["scn"], crash[0]["panic"]))
         return
